@@ -24,8 +24,8 @@ PROPS = {
     "C08": dict(modules=["Cvss.Props.C08", "Cvss.Props.C08v2", "Cvss.Props.C08v3", "Cvss.Props.C08v4"], ties=["Cvss.Model.SrcTie"], streams=["parse", "obj"]),
     "C09": dict(modules=["Cvss.Props.C09", "Cvss.Props.C09v4", "Cvss.Props.C09b"], ties=[], streams=["obj", "parse"]),
     "C10": dict(modules=["Cvss.Props.C10"], ties=[], streams=["score:K"]),
-    "C11": dict(modules=["Cvss.Props.C11v2"], ties=[], streams=["score:F"]),
-    "C12": dict(modules=["Cvss.Props.C12v2"], ties=[], streams=["score:M"]),
+    "C11": dict(modules=["Cvss.Props.C11v2", "Cvss.Props.C11v3", "Cvss.Props.C11v4"], ties=[], streams=["score:F"]),
+    "C12": dict(modules=["Cvss.Props.C12v2", "Cvss.Props.C12v3", "Cvss.Props.C12v4", "Cvss.Proofs.Score3MonoA_0", "Cvss.Proofs.Score3MonoA_1", "Cvss.Proofs.Score3MonoA_2", "Cvss.Proofs.Score3MonoA_3", "Cvss.Proofs.Score3MonoBT", "Cvss.Proofs.Score3MonoB_0", "Cvss.Proofs.Score3MonoB_1", "Cvss.Proofs.Score3MonoB_2", "Cvss.Proofs.Score3MonoDefs", "Cvss.Proofs.Score3MonoObj", "Cvss.Proofs.Score3MonoSpec", "Cvss.Proofs.Score3MonoStr", "Cvss.Proofs.Mono4All", "Cvss.Proofs.Mono4Bound", "Cvss.Proofs.Mono4Bridge0", "Cvss.Proofs.Mono4Bridge1", "Cvss.Proofs.Mono4Bridge2", "Cvss.Proofs.Mono4Bridge3", "Cvss.Proofs.Mono4Bridge4", "Cvss.Proofs.Mono4Bridge5", "Cvss.Proofs.Mono4BridgeDef", "Cvss.Proofs.Mono4Cover", "Cvss.Proofs.Mono4Cover36", "Cvss.Proofs.Mono4Cover36H", "Cvss.Proofs.Mono4Cover36L", "Cvss.Proofs.Mono4Cover36N", "Cvss.Proofs.Mono4Eff", "Cvss.Proofs.Mono4Lists", "Cvss.Proofs.Mono4P", "Cvss.Proofs.Mono4Pack", "Cvss.Proofs.Mono4Raw", "Cvss.Proofs.Mono4Tab1", "Cvss.Proofs.Mono4Tab2", "Cvss.Proofs.Mono4Tab36", "Cvss.Proofs.Mono4Tab4", "Cvss.Proofs.Mono4Tab5"], ties=[], streams=["score:M"]),
     "C13": dict(modules=["Cvss.Props.C13", "Cvss.Props.C13b", "Cvss.Props.C13v2", "Cvss.Props.C13v3", "Cvss.Props.C13v4"], ties=["Cvss.Model.SrcTie"], streams=["parse"]),
     "C14": dict(modules=["Cvss.Props.C14"], ties=["Cvss.Model.SrcTie"], streams=["race", "obj"]),
     "C15": dict(modules=["Cvss.Props.C15"], ties=[], streams=["rating"]),
@@ -142,12 +142,17 @@ LEVEL_TEXT["C10"] = _lt("proof",
     "replacing X by its default, any supplemental Set (v4), any environmental Set (v3 Base/Temporal) leave the score unchanged. Structural: the generated cores use each pair only "
     "through mod_ and X only through the default's weight (small decide tables on the generated weight functions); no float evaluation.",
     "trusted: Lean kernel; translator for the scoring functions and Get/Set (score stream K operations compare scores of 1.5e3/6e4 equal-key pairs per version)", _TECH)
-for pid in ["C11", "C12"]:
-    LEVEL_TEXT[pid] = _lt("proof",
-        "PARTIAL (being extended): v2.0 part proved - C11v2: Base/Temporal scores are finite, equal to the double nearest k/10 with 0<=k<=100 (Environmental: -2<=k<=100, the documented "
-        "exception), for every well-formed object; C12v2: Base and Temporal scores are monotone in every base/temporal metric along the Spec severity order (Spec/OrderV2.lean), by kernel "
-        "enumeration on the float model. v3.x/v4.0 parts: decided by the Spec-oracle differential (F operations: nearest-k/10 + Rating accepts; M operations: every ordered value pair of "
-        "one metric on random objects, judged with Spec/Effective.lean ranks) until their theorems are merged.", _SCORE_NOTE, _TECH + " (v2.0); differential oracle (v3.x, v4.0)")
+LEVEL_TEXT["C11"] = _lt("proof",
+    "Theorems C11v2/C11v3/Props.C11v4: for every well-formed object of every version each scoring method returns a finite double that is bit-equal to F64.tenth k (the double "
+    "nearest k/10; v2 Base/Temporal may return -0.0 for k = 0, characterised exactly in C05.O1_*) with 0 <= k <= 100 (v2 Environmental: -2 <= k <= 100, the documented exception, "
+    "attained), never the panic/poison value, and the package's regenerated Rating accepts it (101-case kernel tables on the generated Rating). Corollaries of C03/C04/C05 plus "
+    "Spec-level bounds (scoreK <= 100 proved structurally for v4).", _SCORE_NOTE, _TECH)
+LEVEL_TEXT["C12"] = _lt("proof",
+    "Theorems C12v2.base/temporal_monotone, Props.C12v3.base/temporal/environmental_v31 + base/temporal_v30, Props.C12v4.C12v4: for every well-formed object, every metric and every pair "
+    "of legal values v1, v2 with v2 at least as severe as v1 in the Spec order (Spec/Effective.lean, Spec/OrderV2.lean; a Modified X ranks as the base value), the score with v1 is <= the score "
+    "with v2 (F64.le on the regenerated scores after Set). Proved on the exact Specs by kernel enumeration of (single-step transition) x (context) - v4: 852k comparisons over group summaries, "
+    "v3.1: 16+9 chunks over the environmental-inner classes incl. Scope and the scope-dependent PR weight - and transferred with C03/C04 (score = tenth K) and C10. Also proved: the v3.0 "
+    "EnvironmentalScore is NOT monotone (already on the FIRST v3.0 equations; the property does not claim it).", _SCORE_NOTE, _TECH)
 LEVEL_TEXT["C03"] = _lt("proof",
     "Theorems Props.C03.base/temporal/environmental_v31/_v30 (+ impact/exploitability): for EVERY well-formed v3.0/v3.1 object (573,308,928,000 per version) each regenerated score is "
     "bit-equal to the double nearest K/10 where K is the exact-decimal evaluation of the FIRST equations (Spec/V3.lean: weights, scope-dependent PR, 0.915 cap, the version's own "
